@@ -232,12 +232,29 @@ func loXEntryInfos(exp Exporter, class string, loXinfo *LoXinfo, id string) {
 	}
 }
 
+// reservedID tells whether id has the form of the anchors the xhtml exporter
+// generates itself for headers, figures, tables and poems (s1, s2-3, fig1,
+// tbl1, poem1) or is the anchor of the title of the table of contents.
+func reservedID(id string) bool {
+	for _, p := range []string{"s", "fig", "tbl", "poem"} {
+		if strings.HasPrefix(id, p) && len(id) > len(p) && strings.Trim(id[len(p):], "0123456789-") == "" {
+			return true
+		}
+	}
+	return id == "toc-title"
+}
+
 // storeId stores an id with reference string ref, and of type idtype.
 func (ctx *Context) storeID(id string, idinfo IDInfo) {
 	if _, ok := ctx.IDs[id]; ok {
 		q := ctx.quiet
 		ctx.quiet = false
 		ctx.Error("already used id")
+		ctx.quiet = q
+	} else if (ctx.Format == "xhtml" || ctx.Format == "epub") && reservedID(id) {
+		q := ctx.quiet
+		ctx.quiet = false
+		ctx.Error("id has the form of a generated anchor and may not be unique:", id)
 		ctx.quiet = q
 	}
 	ctx.IDs[id] = idinfo
